@@ -76,7 +76,7 @@ def run(ctx):
         for h, script in enumerate(scripts):
             cache_dir = os.path.join(base, 'cache%d' % h)
             # pool of module texts
-            g = Gen(rng, Opts(max_depth=2, kinds=['bool', 'int', 'enum', 'octs', 'seq', 'choice', 'seqof', 'enum']))
+            g = Gen(rng, Opts(max_depth=2, kinds=['bool', 'int', 'enum', 'octs', 'seq', 'choice', 'seqof', 'enum', 'str', 'str', 'bits', 'null']))
             mods = []
             for mi in range(3):
                 t = g.type()
@@ -188,10 +188,74 @@ def run(ctx):
                                                   'only_model': [k[:80] for k in sorted(model_keys - impl_keys)][:3]})
         ctx.count('cache_dirs_with_key_check', len(by_dir))
         encoding_histories(ctx, base)
+        populate_then_hit(ctx, base)
         if not ctx.quick():
             fault_injection(ctx, base)
     finally:
         shutil.rmtree(base, ignore_errors=True)
+
+
+ALL_KINDS = """M DEFINITIONS AUTOMATIC TAGS ::= BEGIN
+A ::= SEQUENCE {
+  b BOOLEAN, i INTEGER (0..300), j INTEGER, e ENUMERATED { red(0), green(5), ..., blue(9) }, n NULL,
+  o OCTET STRING (SIZE(0..4)), bs BIT STRING (SIZE(3)), nb BIT STRING { first(0), last(7) },
+  p PrintableString (SIZE(2)), ia IA5String, vs VisibleString (SIZE(1..3)), ns NumericString, u UTF8String, bm BMPString,
+  fr IA5String (FROM ("a".."f" | "0".."9")),
+  r REAL, oid OBJECT IDENTIFIER, c CHOICE { x INTEGER (0..7), y PrintableString, ... }, l SEQUENCE (SIZE(0..3)) OF PrintableString,
+  d INTEGER DEFAULT 7, op PrintableString OPTIONAL, ...,
+  ad PrintableString OPTIONAL
+}
+END
+"""
+ALL_KINDS_VALUES = [
+    {'b': True, 'i': 300, 'j': -70000, 'e': 'green', 'n': None, 'o': b'\x01\x02', 'bs': (b'\xa0', 3), 'nb': (b'\x81', 8), 'p': 'AZ', 'ia': 'a~', 'vs': 'x y',
+     'ns': '12 3', 'u': 'caf\u00e9', 'bm': '\u6f22', 'fr': 'a0f9', 'r': 1.5, 'oid': '1.2.840.113549', 'c': ('y', 'Hello'), 'l': ['A1', '', 'z'], 'op': 'Q', 'ad': 'R2'},
+    {'b': False, 'i': 0, 'j': 0, 'e': 'blue', 'n': None, 'o': b'', 'bs': (b'\x00', 3), 'nb': (b'\x80', 1), 'p': '09', 'ia': '', 'vs': '~', 'ns': '', 'u': '', 'bm': '',
+     'fr': '', 'r': 0.0, 'oid': '2.999.3', 'c': ('x', 7), 'l': [], 'd': 8},
+]
+
+
+def populate_then_hit(ctx, base):
+    """every codec: compile a module that has one component of every leaf kind into an empty cache directory (populates it), compile the
+    same call again (served from the cache), twice more from a NEW process-independent load (a fresh diskcache handle), and compare all
+    of them with the uncached compile on encode / decode of two values.  Whatever a compiled specification loses or changes when it
+    is stored and loaded back (pickling) shows here."""
+    import asn1tools
+    pth = os.path.join(base, 'allkinds.asn')
+    with open(pth, 'w') as f:
+        f.write(ALL_KINDS)
+    for codec in CODECS:
+        for numeric in (False, True):
+            cache_dir = os.path.join(base, 'pth_%s_%s' % (codec, numeric))
+
+            def fp(spec):
+                out = []
+                for v in ALL_KINDS_VALUES:
+                    vv = dict(v)
+                    if numeric:
+                        vv['e'] = {'red': 0, 'green': 5, 'blue': 9}[vv['e']]
+                    r = impl.encode(spec, 'A', vv)
+                    d = impl.decode(spec, 'A', r[1]) if r[0] == 'ok' and codec != 'gser' else ('n/a',)
+                    out.append((r[:2], repr(d[1]) if d[0] == 'ok' else d[:2]))
+                return out
+            try:
+                fresh = fp(asn1tools.compile_files([pth], codec, numeric_enums=numeric))
+            except Exception as e:
+                ctx.count('populate-then-hit.uncached-compile-error.' + type(e).__name__)
+                continue
+            for call in range(3):
+                ctx.case(('populate-then-hit', codec, numeric, call))
+                ctx.count('call.populate-then-hit')
+                try:
+                    got = fp(asn1tools.compile_files([pth], codec, cache_dir=cache_dir, numeric_enums=numeric))
+                except Exception as e:
+                    got = ['compile error', impl.classify(e)]
+                if got != fresh:
+                    diff = next(((a, b) for a, b in zip(got, fresh) if a != b), (got[:1], fresh[:1]))
+                    ctx.violation('a specification served from the compile cache behaves differently from an uncached compile of the same call',
+                                  {'file_text': ALL_KINDS, 'codec': codec, 'numeric_enums': numeric, 'call_index_on_this_cache_dir': call,
+                                   'first_difference_cached_vs_uncached': repr(diff)[:700]})
+                    break
 
 
 def encoding_histories(ctx, base):
